@@ -70,10 +70,15 @@ class Pool:
         self.da = copy.deepcopy(DA)
         self.db = copy.deepcopy(DB)
         self.chain = copy.deepcopy(CHAIN)
+        # a record whose child type was parsed separately into a shared table and is only referenced
+        self._shared = {}
+        self.child_piece = fa.parse_schema({"type": "record", "name": "Child", "namespace": "pw", "fields": [{"name": "x", "type": "int"}]}, self._shared)
+        self.parent_piecewise = fa.parse_schema({"type": "record", "name": "Parent", "namespace": "pw", "fields": [
+            {"name": "c", "type": "pw.Child"}, {"name": "cs", "type": {"type": "array", "items": "Child"}}]}, self._shared)
         self.named = {}  # caller-supplied named-schema dictionary (may be filled)
         self.tmpdir = tmpdir
 
-    EXEMPT = {"named", "fa", "tmpdir"}
+    EXEMPT = {"named", "fa", "tmpdir", "_shared"}
 
     def objects(self):
         return {k: v for k, v in self.__dict__.items() if k not in self.EXEMPT}
@@ -188,6 +193,22 @@ CALLS = {
     "container_a_bad": lambda fa, p: _container(fa, p.raw_a, [p.da, {"id": "bad"}], validator=True),
     "container_read_a": lambda fa, p: list(fa.reader(io.BytesIO(_container_const(fa)))),
     "container_read_a_as_b": lambda fa, p: list(fa.reader(io.BytesIO(_container_const(fa)), p.raw_b)),
+    # schemas that only REFER to names some other call defines: must fail identically, whatever ran before
+    "read_dangling_sub": lambda fa, p: fa.schemaless_reader(io.BytesIO(b"\x02\x0a\x00"), {"type": "array", "items": "acme.Sub"}),
+    "read_dangling_kind": lambda fa, p: fa.schemaless_reader(io.BytesIO(b"\x02"), ["null", "acme.Kind"]),
+    "write_dangling_sub": lambda fa, p: _sl_write(fa, {"type": "array", "items": "acme.Sub"}, [{"x": 1}]),
+    "validate_dangling_event": lambda fa, p: fa.validate({"k": p.da}, {"type": "map", "values": "acme.Event"}, raise_errors=False),
+    "parse_dangling_node": lambda fa, p: fa.schema.to_parsing_canonical_form(fa.parse_schema(["null", "acme.Node"])),
+    "json_read_dangling": lambda fa, p: list(fa.json_reader(io.StringIO('[{"x": 1}]'), {"type": "array", "items": "acme.Sub"})),
+    "generate_dangling": lambda fa, p: _gen(fa, {"type": "array", "items": "acme.Kind"}, 1),
+    "container_read_dangling_reader": lambda fa, p: list(fa.reader(io.BytesIO(_container_const(fa)), {"type": "array", "items": "acme.Sub"})),
+    "canon_dangling": lambda fa, p: fa.schema.to_parsing_canonical_form({"type": "map", "values": "pw.Child"}),
+    # piecewise-parsed schema objects handed to calls that rebuild a self-contained schema
+    "canon_piecewise": lambda fa, p: fa.schema.to_parsing_canonical_form(p.parent_piecewise),
+    "container_piecewise": lambda fa, p: _container(fa, p.parent_piecewise, [{"c": {"x": 1}, "cs": [{"x": 2}]}]),
+    "container_union_piecewise": lambda fa, p: list(fa.reader(io.BytesIO(_container(fa, [p.child_piece, p.parent_piecewise], [{"x": 5}, {"c": {"x": 1}, "cs": []}])))),
+    "write_piecewise": lambda fa, p: _sl_write(fa, p.parent_piecewise, {"c": {"x": 1}, "cs": [{"x": 2}]}),
+    "json_write_piecewise": lambda fa, p: _json_write(fa, p.parent_piecewise, [{"c": {"x": 1}, "cs": []}]),
     "dec3_read": lambda fa, p: fa.schemaless_reader(io.BytesIO(_enc("dec3")), p.dec3),
     "dec12_read": lambda fa, p: fa.schemaless_reader(io.BytesIO(_enc("dec12")), p.dec12),
     "dec_write": lambda fa, p: _sl_write(fa, p.dec12, decimal.Decimal("-42")),
@@ -371,7 +392,8 @@ def units(tier):
 COLLIDERS = ["parse_a_into_named", "parse_b_into_named", "expand_a", "expand_node", "write_a_strict", "write_b_strict", "write_a", "write_b",
              "read_a_as_b", "read_b_as_a", "json_read_a_absent", "json_read_a_raw_absent", "json_read_b_absent", "generate_a", "generate_b_raw",
              "dec3_read", "dec12_read", "write_a_bad_last", "container_a", "container_read_a_as_b", "validate_a_raises", "load_schema",
-             "parse_node_parsed_into_named", "write_node", "read_a", "read_b"]
+             "parse_node_parsed_into_named", "write_node", "read_a", "read_b", "read_dangling_sub", "canon_piecewise", "container_piecewise",
+             "container_union_piecewise", "container_read_a", "generate_dangling"]
 
 
 def step_check(res, fa, pool, hist, call):
